@@ -62,7 +62,7 @@ def gen_domain(t, feat=None, multi_agent=False):
     if f["constants"] and t.chance(1, 2):
         knames = t.shuffle(["k0", "k1", "k-2", "k_3", "k10"])
         for i in range(1 + t.draw(2)):
-            D["constants"][knames[i]] = t.pick(names)
+            D["constants"][knames[i]] = "object" if f.get("object_params") and t.draw(5) == 0 else t.pick(names)
     if f.get("many_constants"):
         # a wide vocabulary: a dozen or more constants of one type with ordinary hyphenated names (an exported
         # ':constants' group of several hundred characters)
